@@ -8,8 +8,8 @@ namespace FpgoVerif.C18
 
 /-- **once each, in registration order.**  The interceptors invoked for a request form a prefix of the
     registered list (so every registered occurrence runs at most once, and in order). -/
-theorem C18_spec_prefix (beh : Nat → Req → Req × Bool) (t : Tr) (is : List Nat) (req : Req) :
-    icptIds (Spec.visit beh t is req).1 <+: is := by
+theorem C18_spec_prefix (beh : Nat → Req → Req × Bool) (tf : Tr → Bool) (t : Tr) (is : List Nat) (req : Req) :
+    icptIds (Spec.visit beh tf t is req).1 <+: is := by
   induction is generalizing req with
   | nil => simp [Spec.visit, icptIds]
   | cons i rest ih =>
@@ -21,15 +21,17 @@ theorem C18_spec_prefix (beh : Nat → Req → Req × Bool) (t : Tr) (is : List 
       simp only [hf', Bool.false_eq_true, if_false]
       obtain ⟨r, hr⟩ := ih (beh i req).1
       refine ⟨r, ?_⟩
-      show i :: (icptIds (Spec.visit beh t rest (beh i req).1).1 ++ r) = i :: rest
+      show i :: (icptIds (Spec.visit beh tf t rest (beh i req).1).1 ++ r) = i :: rest
       rw [hr]
 
-/-- **no error: all run, then the transport sees the request exactly once, with every header change.** -/
-theorem C18_spec_ok (beh : Nat → Req → Req × Bool) (t : Tr) (is : List Nat) (req : Req)
-    (h : (Spec.visit beh t is req).2 = .ok) :
-    icptIds (Spec.visit beh t is req).1 = is ∧
-    transports (Spec.visit beh t is req).1 = [(t, thread beh req is)] ∧
-    (Spec.visit beh t is req).1.getLast? = some (.transport t (thread beh req is)) := by
+/-- **no interceptor error: all run, then the transport sees the request exactly once, with every header
+    change** — also when the transport itself then fails (`terr`), whatever kind of error it returns: one
+    transport event, nothing re-run. -/
+theorem C18_spec_ok (beh : Nat → Req → Req × Bool) (tf : Tr → Bool) (t : Tr) (is : List Nat) (req : Req)
+    (h : (Spec.visit beh tf t is req).2 = .ok ∨ (Spec.visit beh tf t is req).2 = .terr) :
+    icptIds (Spec.visit beh tf t is req).1 = is ∧
+    transports (Spec.visit beh tf t is req).1 = [(t, thread beh req is)] ∧
+    (Spec.visit beh tf t is req).1.getLast? = some (.transport t (thread beh req is)) := by
   induction is generalizing req with
   | nil => simp [Spec.visit, icptIds, transports, thread]
   | cons i rest ih =>
@@ -40,21 +42,21 @@ theorem C18_spec_ok (beh : Nat → Req → Req × Bool) (t : Tr) (is : List Nat)
       simp only [hf', Bool.false_eq_true, if_false] at h ⊢
       obtain ⟨h1, h2, h3⟩ := ih (beh i req).1 h
       refine ⟨by simp [icptIds, h1], by simp [transports, h2, thread], ?_⟩
-      have hne : (Spec.visit beh t rest (beh i req).1).1 ≠ [] := by
+      have hne : (Spec.visit beh tf t rest (beh i req).1).1 ≠ [] := by
         intro e; simp [e] at h3
       rw [List.getLast?_cons_of_ne_nil hne] <;> simp [h3, thread]
 
 /-- **an error aborts:** the failing interceptor is the last thing invoked — later interceptors and the
     transport are not — it saw the headers its predecessors left, every predecessor passed, and its
     error is the result. -/
-theorem C18_spec_err (beh : Nat → Req → Req × Bool) (t : Tr) (is : List Nat) (req : Req) (i : Nat)
-    (h : (Spec.visit beh t is req).2 = .err i) :
-    transports (Spec.visit beh t is req).1 = [] ∧
-    ∃ pre post, is = pre ++ i :: post ∧ icptIds (Spec.visit beh t is req).1 = pre ++ [i] ∧
+theorem C18_spec_err (beh : Nat → Req → Req × Bool) (tf : Tr → Bool) (t : Tr) (is : List Nat) (req : Req) (i : Nat)
+    (h : (Spec.visit beh tf t is req).2 = .err i) :
+    transports (Spec.visit beh tf t is req).1 = [] ∧
+    ∃ pre post, is = pre ++ i :: post ∧ icptIds (Spec.visit beh tf t is req).1 = pre ++ [i] ∧
       (beh i (thread beh req pre)).2 = true ∧
-      (Spec.visit beh t is req).1.getLast? = some (.icpt i (thread beh req pre)) := by
+      (Spec.visit beh tf t is req).1.getLast? = some (.icpt i (thread beh req pre)) := by
   induction is generalizing req with
-  | nil => simp [Spec.visit] at h
+  | nil => cases htf : tf t <;> simp [Spec.visit, htf] at h
   | cons j rest ih =>
     unfold Spec.visit at h ⊢
     by_cases hf : (beh j req).2 = true
@@ -66,45 +68,48 @@ theorem C18_spec_err (beh : Nat → Req → Req × Bool) (t : Tr) (is : List Nat
       simp only [hf', Bool.false_eq_true, if_false] at h ⊢
       obtain ⟨h1, pre, post, h2, h3, h4, h5⟩ := ih (beh j req).1 h
       refine ⟨by simp [transports, h1], j :: pre, post, by simp [h2], by simp [icptIds, h3], by simpa [thread] using h4, ?_⟩
-      have hne : (Spec.visit beh t rest (beh j req).1).1 ≠ [] := by
+      have hne : (Spec.visit beh tf t rest (beh j req).1).1 ≠ [] := by
         intro e; simp [e] at h5
       rw [List.getLast?_cons_of_ne_nil hne]
       simpa [thread] using h5
 
-/-- the result of a request is success or the error of a registered interceptor — never a panic/crash -/
-theorem C18_spec_total (beh : Nat → Req → Req × Bool) (t : Tr) (is : List Nat) (req : Req) :
-    (Spec.visit beh t is req).2 = .ok ∨ ∃ i ∈ is, (Spec.visit beh t is req).2 = .err i := by
+/-- the result of a request is success, the transport's own failure, or the error of a registered
+    interceptor — never a panic/crash -/
+theorem C18_spec_total (beh : Nat → Req → Req × Bool) (tf : Tr → Bool) (t : Tr) (is : List Nat) (req : Req) :
+    (Spec.visit beh tf t is req).2 = .ok ∨ (Spec.visit beh tf t is req).2 = .terr ∨
+      ∃ i ∈ is, (Spec.visit beh tf t is req).2 = .err i := by
   induction is generalizing req with
-  | nil => simp [Spec.visit]
+  | nil => cases h : tf t <;> simp [Spec.visit, h]
   | cons j rest ih =>
     unfold Spec.visit
     by_cases hf : (beh j req).2 = true
     · simp [hf]
     · have hf' : (beh j req).2 = false := by simpa using hf
       simp only [hf', Bool.false_eq_true, if_false]
-      rcases ih (beh j req).1 with h | ⟨i, hi, h⟩
+      rcases ih (beh j req).1 with h | h | ⟨i, hi, h⟩
       · exact Or.inl h
-      · exact Or.inr ⟨i, by simp [hi], h⟩
+      · exact Or.inr (Or.inl h)
+      · exact Or.inr (Or.inr ⟨i, by simp [hi], h⟩)
 
 /-! ## the code's index-walking `recursiveVisit` is that specification -/
 
 /-- **visit clause.**  Whenever the wrapped transport is not the SimpleHTTP itself, `RoundTrip`
     (= `recursiveVisit request 0`, any sufficient fuel) produces exactly the prescribed call log and result,
     for every interceptor list, behaviour and request. -/
-theorem C18_visit (beh : Nat → Req → Req × Bool) (s : SH) (t : Tr) (ht : s.clientTransport = some t)
+theorem C18_visit (beh : Nat → Req → Req × Bool) (tf : Tr → Bool) (s : SH) (t : Tr) (ht : s.clientTransport = some t)
     (hne : t ≠ .self) (fuel : Nat) (hfuel : s.interceptors.length + 1 ≤ fuel) (req : Req) :
-    recursiveVisit beh s fuel req 0 = Spec.visit beh t s.interceptors req := by
-  have := visit_eq beh s t ht hne fuel req 0 (Nat.zero_le _) (by omega)
+    recursiveVisit beh tf s fuel req 0 = Spec.visit beh tf t s.interceptors req := by
+  have := visit_eq beh tf s t ht hne fuel req 0 (Nat.zero_le _) (by omega)
   simpa using this
 
 /-- non-vacuity + a concrete instance: interceptors 3,5,3 with 5 failing -/
-example : recursiveVisit (behOf [5]) ⟨[3, 5, 3], 0, some (.stub 1), some .self⟩ 10 [] 0 =
+example : recursiveVisit (behOf [5]) (fun _ => false) ⟨[3, 5, 3], 0, some (.stub 1), some .self⟩ 10 [] 0 =
     ([.icpt 3 [], .icpt 5 [3]], .err 5) := by decide
 
 /-- a wrapped transport that IS the SimpleHTTP (what a double wrap would produce) runs the chain again and
     again — the model's `crash` (Go: fatal stack overflow) -/
 theorem C18_self_transport_recurses :
-    (recursiveVisit (behOf []) ⟨[1], 0, some .self, some .self⟩ 8 [] 0) =
+    (recursiveVisit (behOf []) (fun _ => false) ⟨[1], 0, some .self, some .self⟩ 8 [] 0) =
       ([.icpt 1 [], .icpt 1 [1], .icpt 1 [1, 1], .icpt 1 [1, 1, 1]], .crash) := by decide
 
 /-! ## bookkeeping -/
@@ -229,11 +234,11 @@ theorem C18_runH_inv (st : SH × Clients) (h : List HOp) (hinv : Inv st.1 st.2) 
     custom transports).  Every request through the current client then runs the chain exactly once — the
     prescribed call log for the bookkeeping history — and ends in a transport `t` that is not the
     SimpleHTTP: no double wrap, no recursion. -/
-theorem C18_client (beh : Nat → Req → Req × Bool) (cs : Clients) (c : Nat) (is : List Nat) (h : List HOp)
+theorem C18_client (beh : Nat → Req → Req × Bool) (tf : Tr → Bool) (cs : Clients) (c : Nat) (is : List Nat) (h : List HOp)
     (hc : c < cs.length) (hfresh : ∀ k : Nat, cs[k]? ≠ some (some Tr.self)) (hv : setsValid cs.length h) (req : Req) :
     let st := runH (newSimpleHTTP cs c is) h
     ∃ t, t ≠ .self ∧ st.1.clientTransport = some t ∧
-      clientDo beh st.1 st.2 req = Spec.visit beh t (Spec.book is (bookOf h)) req := by
+      clientDo beh tf st.1 st.2 req = Spec.visit beh tf t (Spec.book is (bookOf h)) req := by
   intro st
   obtain ⟨hi0, his0, hlen0⟩ := C18_setHTTPClient_inv ⟨is, c, none, none⟩ cs c hc (Or.inr ⟨rfl, hfresh⟩)
   obtain ⟨hinv, hbook⟩ := C18_runH_inv (newSimpleHTTP cs c is) h hi0 (by unfold newSimpleHTTP; rw [hlen0]; exact hv)
@@ -244,7 +249,7 @@ theorem C18_client (beh : Nat → Req → Req × Bool) (cs : Clients) (c : Nat) 
   simp only [st] at *
   rw [hcl]
   simp only [Option.getD_some]
-  rw [C18_visit beh _ t ht hne _ (by unfold fuelFor; omega) req, hbook]
+  rw [C18_visit beh tf _ t ht hne _ (by unfold fuelFor; omega) req, hbook]
   unfold newSimpleHTTP
   rw [his0]
 
